@@ -175,3 +175,197 @@ def r_originfree(idx, rep, modules, rule="R-ORIGINFREE", floor=5):
                         "faces get flipped / points misclassified for valid inputs" % u(c)[:90])
             else:
                 rep.ok(rule, key, f.where, "no <D, P> sign test")
+
+
+# ---------------------------------------------------------------------------------------------------------------------------------
+# R-AFFINE: a returned point is an affine combination of positions (position weights sum to 1).
+#
+# Every vector expression gets a position weight: 1 for a position, 0 for a direction / difference of positions; weights add under + and -,
+# scale under multiplication by a numeric constant, survive multiplication by an unknown scalar only when they are 0.  p + t*d has weight 1,
+# 0.5*(p + q) has weight 1, p - q weight 0, center + (p + t*d) weight 2: that last value moves by twice the translation when the scene is
+# translated — it is not a point of the scene.  Public functions are seeded from the repository's parameter naming convention; private
+# helpers are evaluated per call site with the weights of the actual arguments (a helper that documents its `line_point` as centre-relative
+# gets weight 0 from a caller that subtracted the centre, weight 1 from one that forgot to).
+
+from fractions import Fraction as _Fr
+
+
+class _Weights:
+    def __init__(self, idx):
+        self.idx = idx
+        self.memo = {}
+        self.busy = set()
+        self.findings = {}        # (callee key, ret position) -> (node, weight, context text)
+        self.analysed = set()
+
+    def seed(self, name):
+        k = _seed(name)
+        return _Fr(1) if k == P else (_Fr(0) if k == D else None)
+
+    def analyse(self, f, argw=None, ctx=None):
+        params = f.params()
+        seeds = tuple((argw[i] if (argw is not None and i < len(argw)) else self.seed(p)) for i, p in enumerate(params))
+        key = (f.key, seeds)
+        if key in self.memo:
+            return self.memo[key]
+        if key in self.busy:
+            return None
+        self.busy.add(key)
+        self.analysed.add(f.key)
+        env = dict(zip(params, seeds))
+        rets = []
+        self._block(f, f.node.body, env, rets, ctx or ("%s with its documented parameter kinds" % f.name))
+        self.busy.discard(key)
+        out = None
+        for r in rets:
+            if out is None:
+                out = r
+            elif isinstance(out, tuple) and isinstance(r, tuple) and len(out) == len(r):
+                out = tuple(a if a == b else None for a, b in zip(out, r))
+            elif out != r:
+                out = None
+        self.memo[key] = out
+        return out
+
+    def num(self, e):
+        if isinstance(e, ast.Constant) and isinstance(e.value, (int, float)) and not isinstance(e.value, bool):
+            return _Fr(e.value).limit_denominator(10 ** 6)
+        if isinstance(e, ast.UnaryOp) and isinstance(e.op, ast.USub):
+            v = self.num(e.operand)
+            return -v if v is not None else None
+        if isinstance(e, ast.BinOp) and isinstance(e.op, (ast.Mult, ast.Div, ast.Add, ast.Sub)):
+            a, b = self.num(e.left), self.num(e.right)
+            if a is None or b is None:
+                return None
+            if isinstance(e.op, ast.Mult):
+                return a * b
+            if isinstance(e.op, ast.Div):
+                return a / b if b != 0 else None
+            return a + b if isinstance(e.op, ast.Add) else a - b
+        return None
+
+    def w(self, f, e, env):
+        if isinstance(e, ast.Name):
+            return env.get(e.id)
+        if isinstance(e, ast.UnaryOp) and isinstance(e.op, ast.USub):
+            v = self.w(f, e.operand, env)
+            return -v if isinstance(v, _Fr) else None
+        if isinstance(e, ast.Subscript):
+            v = self.w(f, e.value, env)
+            return v if isinstance(v, _Fr) else None
+        if isinstance(e, ast.BinOp):
+            if isinstance(e.op, (ast.Add, ast.Sub)):
+                a, b = self.w(f, e.left, env), self.w(f, e.right, env)
+                if isinstance(a, _Fr) and isinstance(b, _Fr):
+                    return a + b if isinstance(e.op, ast.Add) else a - b
+                return None
+            if isinstance(e.op, (ast.Mult, ast.Div)):
+                for vec, sc, left_is_vec in ((e.left, e.right, True), (e.right, e.left, False)):
+                    if isinstance(e.op, ast.Div) and not left_is_vec:
+                        continue
+                    wv = self.w(f, vec, env)
+                    if isinstance(wv, _Fr) and self.w(f, sc, env) is None:
+                        c = self.num(sc)
+                        if c is not None:
+                            return wv * c if isinstance(e.op, ast.Mult) else (wv / c if c != 0 else None)
+                        return _Fr(0) if wv == 0 else None
+                return None
+            return None
+        if isinstance(e, ast.Call):
+            cn = call_name(e) or ""
+            short = cn.split(".")[-1]
+            if short in ("copy", "array", "asarray", "ascontiguousarray") and e.args and not isinstance(e.args[0], (ast.List, ast.Tuple)):
+                return self.w(f, e.args[0], env)
+            if short == "norm_vector" and e.args:
+                return _Fr(0) if self.w(f, e.args[0], env) == 0 else None
+            if short == "cross" and len(e.args) == 2:
+                return _Fr(0) if self.w(f, e.args[0], env) == 0 and self.w(f, e.args[1], env) == 0 else None
+            callee = self.idx.resolve_call(f.module, e, f.cls)
+            if callee is not None and getattr(callee, "cls", None) is None and callee.name.startswith("_") and not callee.name.startswith("__") \
+                    and not e.keywords and not any(isinstance(a, ast.Starred) for a in e.args):
+                argw = [self.w(f, a, env) for a in e.args]
+                r = self.analyse(callee, argw, "%s called from %s with (%s)" % (callee.name, f.name, ", ".join(
+                    "%s: %s" % (p_, {None: "?", _Fr(0): "direction/offset", _Fr(1): "position"}.get(w_, "weight %s" % w_)) for p_, w_ in zip(callee.params(), argw))))
+                return r
+            return None
+        return None
+
+    def _block(self, f, body, env, rets, ctx):
+        for st in body:
+            if isinstance(st, ast.Assign):
+                v = self.w(f, st.value, env)
+                for t in st.targets:
+                    if isinstance(t, ast.Name):
+                        env[t.id] = v if not isinstance(v, tuple) else None
+                    elif isinstance(t, ast.Tuple) and isinstance(v, tuple) and len(v) == len(t.elts):
+                        for te, ve in zip(t.elts, v):
+                            if isinstance(te, ast.Name):
+                                env[te.id] = ve
+                    elif isinstance(t, ast.Tuple):
+                        for te in t.elts:
+                            if isinstance(te, ast.Name):
+                                env[te.id] = None
+            elif isinstance(st, ast.AugAssign) and isinstance(st.target, ast.Name):
+                a, b = env.get(st.target.id), self.w(f, st.value, env)
+                if isinstance(st.op, (ast.Add, ast.Sub)) and isinstance(a, _Fr) and isinstance(b, _Fr):
+                    env[st.target.id] = a + b if isinstance(st.op, ast.Add) else a - b
+                elif isinstance(st.op, (ast.Mult, ast.Div)) and isinstance(a, _Fr) and self.num(st.value) is not None and self.num(st.value) != 0:
+                    env[st.target.id] = a * self.num(st.value) if isinstance(st.op, ast.Mult) else a / self.num(st.value)
+                elif isinstance(st.op, (ast.Mult, ast.Div)) and a == 0:
+                    env[st.target.id] = _Fr(0)
+                else:
+                    env[st.target.id] = None
+            elif isinstance(st, ast.If):
+                e1, e2 = dict(env), dict(env)
+                self._block(f, st.body, e1, rets, ctx)
+                self._block(f, st.orelse, e2, rets, ctx)
+                for k in set(e1) | set(e2):
+                    env[k] = e1.get(k) if e1.get(k) == e2.get(k) else None
+            elif isinstance(st, (ast.For, ast.While)):
+                for n in ast.walk(st):
+                    if isinstance(n, ast.Name) and isinstance(n.ctx, ast.Store):
+                        env[n.id] = None
+                self._block(f, st.body, env, rets, ctx)
+                for n in ast.walk(st):
+                    if isinstance(n, ast.Name) and isinstance(n.ctx, ast.Store):
+                        env[n.id] = None
+            elif isinstance(st, ast.Return) and st.value is not None:
+                elts = st.value.elts if isinstance(st.value, ast.Tuple) else [st.value]
+                ws = [self.w(f, x, env) for x in elts]
+                for i, (x, wv) in enumerate(zip(elts, ws)):
+                    if isinstance(wv, _Fr) and wv not in (0, 1):
+                        self.findings.setdefault((f.key, i), (st, x, wv, ctx))
+                rets.append(tuple(w_ if isinstance(w_, _Fr) else None for w_ in ws) if isinstance(st.value, ast.Tuple) else (ws[0] if isinstance(ws[0], _Fr) else None))
+            elif isinstance(st, ast.Expr):
+                self.w(f, st.value, env)
+            elif isinstance(st, (ast.With, ast.Try)):
+                self._block(f, st.body, env, rets, ctx)
+
+
+def r_affine(idx, rep, modules, rule="R-AFFINE", floor=20):
+    rep.rule(rule, "every returned vector is an affine combination of positions (position weights sum to 1) or a direction (sum 0): position weights are "
+                   "inferred through +, -, constant factors and — per call site — through private helpers; a weight of 2 (centre + absolute point) is a value "
+                   "that moves twice as far as the scene when the scene is translated", floor=floor)
+    W = _Weights(idx)
+    funcs = []
+    for mname in modules:
+        m = idx.module(mname)
+        for f in m.functions.values():
+            if "<locals>" in f.qualname:
+                continue
+            funcs.append(f)
+            if not (f.name.startswith("_") and not f.name.startswith("__")):
+                W.analyse(f)
+    for f in funcs:
+        if f.key not in W.analysed:
+            continue
+        bad = [(k, v) for k, v in W.findings.items() if k[0] == f.key]
+        key = "%s|returned vectors are affine combinations" % f.key
+        if bad:
+            (fk, i), (st, x, wv, ctx) = bad[0]
+            rep.bad(rule, key, "%s:%d" % (f.module.relpath, st.lineno),
+                    "element %d of `%s` (`%s`) has position weight %s in the context [%s]: it is the sum of %s positions, not a point — translating the whole scene by t moves it "
+                    "by %s*t, so the returned 'closest point' does not lie on the primitive unless the frame origin happens to coincide with the reference point"
+                    % (i, u(st)[:60], u(x)[:40], wv, ctx[:260], wv, wv))
+        else:
+            rep.ok(rule, key, f.where, "position weights of the returned vectors are 0, 1 or undetermined")
